@@ -175,7 +175,28 @@ type IndexedColumn struct {
 	SortOrder  SortOrder
 }
 
+// parenExpr marks an expression written in parentheses while parsing. It
+// never ends up in a statement.
+type parenExpr struct {
+	e Expression
+}
+
+func unparen(e Expression) Expression {
+	if p, ok := e.(parenExpr); ok {
+		return p.e
+	}
+	return e
+}
+
 func newIndexColumn(e Expression, collate string, sort SortOrder) IndexedColumn {
+	_, paren := e.(parenExpr)
+	e = unparen(e)
+	if _, binary := e.(ExBinaryOp); binary && !paren {
+		// COLLATE binds tighter than any binary operator: in `a+1 COLLATE
+		// nocase` it belongs to the `1`, and SQLite orders the index column
+		// BINARY. Only `(a+1) COLLATE nocase` collates the whole expression.
+		collate = ""
+	}
 	col := AsColumn(e)
 	ex := ""
 	if col == "" {
